@@ -127,7 +127,7 @@ class QLCParser(object):
         # str.numeric-function that returns numeric values only if it is an
         # integer
         self._data = {
-            int(k): v for k, v in input_data.items() if k != 0 and str(k).isnumeric()}
+            int(k): [c for c in v] for k, v in input_data.items() if k != 0 and str(k).isnumeric()}
         # check for same length of all columns
         check_errors = ''
         for k, v in self._data.items():
